@@ -304,7 +304,8 @@ template<typename T, typename C, typename A>
 bool req_compactor<T, C, A>::ensure_enough_sections() {
   const float ssr = section_size_raw_ / sqrtf(2);
   const uint32_t ne = nearest_even(ssr);
-  if (state_ >= static_cast<uint64_t>(1ULL << (num_sections_ - 1)) && ne >= req_constants::MIN_K) {
+  // 2^(num_sections - 1) exceeds any 64-bit state if num_sections > 64
+  if (num_sections_ <= 64 && state_ >= static_cast<uint64_t>(1ULL << (num_sections_ - 1)) && ne >= req_constants::MIN_K) {
     section_size_raw_ = ssr;
     section_size_ = ne;
     num_sections_ <<= 1;
@@ -327,6 +328,24 @@ std::pair<uint32_t, uint32_t> req_compactor<T, C, A>::compute_compaction_range(u
 template<typename T, typename C, typename A>
 uint32_t req_compactor<T, C, A>::nearest_even(float value) {
   return static_cast<uint32_t>(round(value / 2)) << 1;
+}
+
+// The section size starts at k (16 bits) and shrinks by sqrt(2) as long as its nearest even value stays >= MIN_K,
+// the number of sections starts at INIT_NUM_SECTIONS and doubles, the weight of an item is 2^lg_weight (64 bits)
+template<typename T, typename C, typename A>
+void req_compactor<T, C, A>::check_serialized_fields(float section_size_raw, uint8_t num_sections, uint8_t lg_weight) {
+  // negated comparisons in order to reject NaN
+  if (!(section_size_raw >= 1 && section_size_raw <= 65535) || nearest_even(section_size_raw) < req_constants::MIN_K) {
+    throw std::invalid_argument("Possible corruption: invalid section size " + std::to_string(section_size_raw));
+  }
+  uint8_t ns = num_sections;
+  while (ns > req_constants::INIT_NUM_SECTIONS && (ns & 1) == 0) ns >>= 1;
+  if (ns != req_constants::INIT_NUM_SECTIONS) {
+    throw std::invalid_argument("Possible corruption: invalid number of sections " + std::to_string(num_sections));
+  }
+  if (lg_weight > 63) {
+    throw std::invalid_argument("Possible corruption: invalid lg_weight " + std::to_string(lg_weight));
+  }
 }
 
 template<typename T, typename C, typename A>
@@ -404,6 +423,8 @@ req_compactor<T, C, A> req_compactor<T, C, A>::deserialize(std::istream& is, con
   auto num_sections = read<decltype(num_sections_)>(is);
   read<uint16_t>(is); // padding
   auto num_items = read<uint32_t>(is);
+  if (!is.good()) throw std::runtime_error("error reading from std::istream");
+  check_serialized_fields(section_size_raw, num_sections, lg_weight);
   auto items = deserialize_items(is, serde, allocator, num_items);
   return req_compactor(hra, lg_weight, sorted, section_size_raw, num_sections, state, std::move(items), num_items,
       comparator, allocator);
@@ -451,6 +472,7 @@ std::pair<req_compactor<T, C, A>, size_t> req_compactor<T, C, A>::deserialize(co
   ptr += 2; // padding
   uint32_t num_items;
   ptr += copy_from_mem(ptr, num_items);
+  check_serialized_fields(section_size_raw, num_sections, lg_weight);
   auto pair = deserialize_items(ptr, end_ptr - ptr, serde, allocator, num_items);
   ptr += pair.second;
   return std::pair<req_compactor, size_t>(
